@@ -41,7 +41,7 @@ def minimums(tier):
     return {"strace.runs": 150, "strace.injected_runs": 100, "strace.kill_runs": 40, "strace.error_runs": 60,
             "trace.unlink_checked": 20, "poststate.checked": 150, "twin.runs": 1500, "twin.fault_runs": 1000,
             "twin.remove_events": 200, "must_not_delete.cases": 20, "nostdout.runs": 15,
-            "twin.exact_block_multiple_documents": 8}
+            "twin.exact_block_multiple_documents": 8, "twin.prior_output_of_same_log": 15}
 
 
 # (mode, pel variant, stdout kind)
@@ -490,6 +490,12 @@ def run_twin(spec, ctx, rng, u):
         fail_at = 0
         nops = None
         stale = mode != "file" and exp is not None and rng.random() < 0.25
+        # an EARLIER conversion's output is still there (well-formed JSON of the very same log, written when it was intact /
+        # when every PEL was selected), and now the PEL is filtered out or damaged behind its headers: nothing is written in
+        # THIS run, so nothing may be deleted
+        prior = None
+        if mode != "file" and exp is None and variant in ("filtered", "undecodable") and rng.random() < 0.6:
+            prior = harness.decode(pel.encode(), harness.make_config(every_pel=True)).text
         while True:
             shutil.rmtree(d, ignore_errors=True)
             os.makedirs(outdir)
@@ -500,6 +506,10 @@ def run_twin(spec, ctx, rng, u):
                 with open(os.path.join(outdir, name + "." + ("%02X" % pel.eid) + ".json"), "w") as f:
                     f.write(rng.choice(["\0", " ", "x"]) * len(exp))
                 ctx.count("twin.stale_output")
+            if prior:
+                with open(os.path.join(outdir, name + "." + ("%02X" % pel.eid) + ".json"), "w") as f:
+                    f.write(prior)
+                ctx.count("twin.prior_output_of_same_log")
             del log[:]
             plan_.update(op=0, fail_at=fail_at, failed=None)
             state.update(out=os.path.abspath(outpath), armed=True,
